@@ -145,7 +145,85 @@ pub fn gen_clean(rng: &mut Rng) -> (Obj, Vec<Record>) {
         }
     }
     add_buddies(rng, &mut root, &widget_ids, &mut ledger);
+    add_layout_attached(rng, &mut root, &mut ledger);
     (root, ledger)
+}
+
+/// Attached layout properties with a CHECKABLE place in the .ui: per layout a random set of families, most often exactly
+/// one (so that a family is seen on its own): the per-row / per-column families end up in an attribute of the parent
+/// `<layout>` (grid: rowstretch, columnstretch, rowminimumheight, columnminimumwidth; boxes: stretch), the item-level ones
+/// (row, column, spans) on the `<item>`.  One non-default value per (layout, family), so that no two children conflict.
+fn add_layout_attached(rng: &mut Rng, o: &mut Obj, ledger: &mut Vec<Record>) {
+    let array_families: &[&str] = match o.class.as_str() {
+        "QGridLayout" => &["rowStretch", "columnStretch", "rowMinimumHeight", "columnMinimumWidth"],
+        "QVBoxLayout" => &["rowStretch"],
+        "QHBoxLayout" => &["columnStretch"],
+        _ => &[],
+    };
+    let item_families: &[&str] = match o.class.as_str() {
+        "QGridLayout" | "QFormLayout" => &["column", "rowSpan", "columnSpan"],
+        "QVBoxLayout" | "QHBoxLayout" => &["rowSpan", "columnSpan"],
+        _ => &[],
+    };
+    if !o.children.is_empty() && (!array_families.is_empty() || !item_families.is_empty()) && rng.chance(1, 2) {
+        let mut chosen: Vec<&str> = vec![];
+        let all: Vec<&str> = array_families.iter().chain(item_families.iter()).copied().collect();
+        if rng.chance(3, 5) {
+            // exactly one family, an array family when the layout has one
+            let pool: &[&str] = if !array_families.is_empty() && rng.chance(3, 4) { array_families } else { &all };
+            chosen.push(*rng.pick(pool));
+        } else {
+            for f in &all {
+                if rng.chance(1, 2) {
+                    chosen.push(*f);
+                }
+            }
+        }
+        for fam in chosen {
+            let value: i64 = match fam {
+                "rowStretch" | "columnStretch" => *rng.pick(&[2, 3, 5]),               // default 1
+                "rowMinimumHeight" | "columnMinimumWidth" => *rng.pick(&[10, 20, 30]), // default 0
+                "column" => {
+                    if o.class == "QFormLayout" {
+                        1
+                    } else {
+                        *rng.pick(&[0, 1, 2])
+                    }
+                }
+                _ => *rng.pick(&[2, 3]),
+            };
+            let tag = match fam {
+                "rowStretch" | "columnStretch" | "rowMinimumHeight" | "columnMinimumWidth" => "layout-array",
+                "column" => "item-column",
+                "rowSpan" => "item-rowspan",
+                _ => "item-colspan",
+            };
+            let lhs = format!("QLayout.{fam}");
+            let n = o.children.len();
+            let mut set_any = false;
+            for (i, c) in o.children.iter_mut().enumerate() {
+                let pick = rng.chance(1, 2) || (!set_any && i + 1 == n);
+                if pick && c.id.is_some() && !c.bindings.iter().any(|(l, _)| *l == lhs) {
+                    c.bindings.push((lhs.clone(), value.to_string()));
+                    ledger.push(Record { object: c.id.clone().unwrap(), lhs: lhs.clone(), fate: Fate::Const { tag: tag.into(), text: value.to_string() } });
+                    set_any = true;
+                }
+            }
+        }
+    }
+    // explicit rows written by propgen become checkable too
+    if matches!(o.class.as_str(), "QGridLayout" | "QFormLayout") {
+        for c in &o.children {
+            if let (Some(id), Some((_, v))) = (&c.id, c.bindings.iter().find(|(l, _)| l == "QLayout.row")) {
+                for r in ledger.iter_mut().filter(|r| &r.object == id && r.lhs == "QLayout.row") {
+                    r.fate = Fate::Const { tag: "item-row".into(), text: v.clone() };
+                }
+            }
+        }
+    }
+    for c in &mut o.children {
+        add_layout_attached(rng, c, ledger);
+    }
 }
 
 /// After bindings were removed: a `separator` binding that became the action's only binding is a static separator (or the
@@ -693,6 +771,8 @@ fn value_matches(tag: &str, text: &str, found: &(String, String)) -> bool {
         }
         "items" => ftext == text,
         "item-alignment" => ftag == "item-alignment" && ftext == text,
+        // the value stands at some index of the attribute of the parent <layout> (the index is C12's subject)
+        "layout-array" => ftag == "layout-array" && ftext.split(',').any(|x| x == text),
         "attr-hsizetype" | "attr-vsizetype" | "attr-theme" => ftag == tag && ftext == text,
         "number" => ftext == text || ftext.parse::<f64>().ok() == text.parse::<f64>().ok(),
         "enum" | "set" => ftext == text || ftext.ends_with(text.rsplit("::").next().unwrap_or(text)),
@@ -1275,6 +1355,29 @@ fn witness_request(name: &str) -> Sexp {
             args.push(fault_sexp(&doc, &fs[0], true));
             args.push(also_sexp(&doc, &fs));
             node("c04-fault", args)
+        }
+        // round 4: only ONE per-row / per-column family is set in a grid; each value is visible in the <layout> attribute
+        "row-stretch-only" => {
+            let mk = |id: &str, fam: &str, v: &str| Obj::new("QLabel").with_id(id).bind(&format!("QLayout.{fam}"), v);
+            let grid = |id: &str, fam: &str, v: &str| Obj::new("QWidget").with_id(&format!("w{id}")).child(Obj::new("QGridLayout").with_id(id).bind("columns", "2").child(mk(&format!("{id}a"), fam, v)).child(Obj::new("QLabel").with_id(&format!("{id}b"))).child(mk(&format!("{id}c"), fam, v)));
+            let fams = [("g1", "rowStretch", "3"), ("g2", "columnStretch", "2"), ("g3", "rowMinimumHeight", "20"), ("g4", "columnMinimumWidth", "30")];
+            let mut kids = vec![];
+            let mut recs = vec![];
+            for (id, fam, v) in fams {
+                kids.push(grid(id, fam, v));
+                for suffix in ["a", "c"] {
+                    recs.push(Record { object: format!("{id}{suffix}"), lhs: format!("QLayout.{fam}"), fate: Fate::Const { tag: "layout-array".into(), text: v.into() } });
+                }
+                recs.push(Record { object: id.into(), lhs: "columns".into(), fate: Fate::LayoutPseudo });
+            }
+            let vb = Obj::new("QWidget").with_id("wv").child(Obj::new("QVBoxLayout").with_id("vb").child(Obj::new("QLabel").with_id("va")).child(mk("vc", "rowStretch", "5")));
+            recs.push(Record { object: "vc".into(), lhs: "QLayout.rowStretch".into(), fate: Fate::Const { tag: "layout-array".into(), text: "5".into() } });
+            kids.push(vb);
+            let doc = Doc::build(&root(kids), &recs, &[]);
+            let mut args = tables_of(&doc);
+            args.push(fates_sexp(&doc));
+            args.push(node("cli", vec![boolean(false)]));
+            node("c04-ledger", args)
         }
         "separator-alone" => Doc::build(&root(vec![Obj::new("QAction").with_id("a").bind("separator", "true")]), &[], &[]).request(Mode::Omit),
         _ => node("bad-request", vec![]),
